@@ -99,6 +99,23 @@ func VX_C03_kernel() {
 	case "heap":
 		heapSort(s, 0, n)
 		vxCheckSorted(s, r, 0, n, "heapSort")
+	case "heap_range", "insertion_range", "quick0_range":
+		// the kernels are called on sub-ranges [a,b) by quickSort: rows outside stay put
+		a, b := vx.ParamInt("a"), vx.ParamInt("b")
+		switch vx.ParamStr("kernel") {
+		case "heap_range":
+			heapSort(s, a, b)
+		case "insertion_range":
+			insertionSort(s, a, b)
+		default:
+			quickSort(s, a, b, 0)
+		}
+		for k := 0; k < n; k++ {
+			if k < a || k >= b {
+				vx.Check(s.index[k] == uint32(k), "rows outside the range are untouched")
+			}
+		}
+		vxCheckSorted(s, r, a, b, "range kernel")
 	case "heap_fallback": // quickSort with exhausted depth must fall back to heapSort
 		quickSort(s, 0, n, 0)
 		vxCheckSorted(s, r, 0, n, "quickSort depth 0")
@@ -109,8 +126,11 @@ func VX_C03_kernel() {
 		medianOfThree(s, 1, 0, 2)
 		vx.Check(r[s.index[0]] <= r[s.index[1]] && r[s.index[1]] <= r[s.index[2]], "medianOfThree orders its three elements")
 		vxCheckSorted(s, r, 0, 0, "medianOfThree")
-	case "pivot":
+	case "pivot", "pivot_range":
 		lo, hi := 0, n
+		if vx.ParamStr("kernel") == "pivot_range" {
+			lo, hi = vx.ParamInt("a"), vx.ParamInt("b")
+		}
 		midlo, midhi := doPivot(s, lo, hi)
 		vx.Check(lo <= midlo && midlo < midhi && midhi <= hi, "doPivot: bounds")
 		p := r[s.index[midlo]]
